@@ -110,7 +110,8 @@ theorem noNaNRun_of_lwNoNaN {m : Method} {n : Nat} {data : Array α} (h : LwNoNa
 /-- **Hypothesis `Reducible`.**  For non-NaN arguments: whenever the merged pair is at least as
 close as each of its members is to `X` (`dab ≤ dax`, `dab ≤ dbx`), the updated dissimilarity is not
 below the merged height: `dab ≤ lw m dax dbx dab …`.  (True in exact arithmetic for single, complete,
-average, weighted, Ward; FALSE under float rounding for the arithmetic formulas; false for
+average, weighted, Ward; for the clamped average also in every ordered number type,
+`reducible_average`; FALSE under float rounding for weighted and Ward; false for
 centroid/median even in exact arithmetic.)  Implied by the textbook form `ReducibleMin`
 (`reducible_of_min`). -/
 def Reducible (α : Type) [Num α] (m : Method) : Prop :=
@@ -138,6 +139,15 @@ theorem reducible_single : Reducible α .single := by
 theorem reducible_complete : Reducible α .complete := by
   intro dax dbx dab sa sb sx _ _ _ h1 h2
   simp only [lw, Gen.complete]; split <;> assumption
+
+/-- The CLAMPED average (`method::average` after the `fix:` commit) is reducible in EVERY ordered
+number type, for all sizes, whatever `+ × /` compute: the result is never below the smaller of its
+two arguments (`Gen.average_not_lt`, `Lemmas/AverageClamp.lean`).  Before the fix this was false for
+IEEE floats (rounded mean one ulp below both arguments). -/
+theorem reducible_average (L : OrderLaws α) : Reducible α .average := by
+  intro dax dbx dab sa sb sx n1 n2 _ h1 h2
+  simp only [lw]
+  exact Gen.average_not_lt L sa sb n1 n2 h1 h2
 
 /-- `h` is a lower bound of all live off-diagonal table entries. -/
 def LowerBound (s : NState α) (h : α) : Prop :=
